@@ -28,7 +28,7 @@ func init() {
 		Level: "exploration",
 		Modes: []Mode{{Name: "program", Weight: 1}},
 		Gen:   genC16, Run: runC16,
-		QuickRuns: 250, ThoroughRuns: 8000,
+		QuickRuns: 500, ThoroughRuns: 8000,
 		Race: true,
 		Rule: "plan = (2..16 tasks x 5..40 operations out of 33 kinds over Server / Namespace / BroadcastOperator / ServerSocket / ClientSocket / Manager incl. operations issued from event, acknowledgement, connection and disconnect handlers, shared argument values emitted by several tasks at once, 2 namespaces, 2..3 clients, transport, pauses, stall parameters) from VERIF_SEED, run by the race-detector build; " +
 			"non-trivial = at least 4 tasks and at least one operation ran inside a handler; distinct = distinct history digest among those",
